@@ -386,14 +386,16 @@ func init() {
 		var bads []badItem
 		for _, t := range schema.Types {
 			for _, op := range t.fieldOps() {
-				if op.K != "union" || len(bads) > 60 {
+				if op.K != "union" {
 					continue
 				}
 				kop := t.fieldOps()[op.Key]
+				perType := 0
 				for n, kv := range nearMissKeys(g, schema.Tables[op.Tbl]) {
-					if n%7 != 0 {
+					if n%5 != 0 || perType >= 5 {
 						continue
 					}
+					perType++
 					if kop.K == "scalar" {
 						kv.N &= maxOf(kop.W)
 					} else if len(kv.S) > kop.N {
